@@ -852,6 +852,7 @@ package redis
 //@   established @before:loadClients newUpstream,(*upstream).updateClients upstream.clients @published clientsok(u)
 //@   modifies all
 //@   ensures @done-closed-on-every-return closed(u.done)
+//@   loop 0 assume forall k string :: has(clients, k) ==> clients[k] != nil
 
 // ---- C02: every request is completed or handed on exactly once (linear completion tokens) ---------
 
@@ -1131,6 +1132,7 @@ package redis
 //@   modifies all
 //@   established @ret newUpstream,(*upstream).updateClients upstream.clients @published clientsok(u)
 //@   ensures @the-table-is-wellformed-afterwards clientsok(u)
+//@   loop 0 assume forall k string :: has(old, k) ==> old[k] != nil
 
 //@ func (*upstream).loopRefreshSlots
 //@   prop C07
